@@ -43,6 +43,7 @@ package internal
 //@    items[k] != nil && knownData(items[k].Payload) && len(msgWire(items[k].Payload)) <= 4294967295
 
 //@ func WriteRawStreamContents
+//@   option strassoc
 //@   requires contents != nil && writer != nil && wfItems(contents.Items)
 //@   modifies wrOut, bufContent, cmpDst, cmpBuf, cmpBase, cmpBaseB
 //@   ensures @wire result == nil ==> streq(wrOut[writer], old(wrOut[writer]) + old(streamWire(contents.Items, len(contents.Items))))
